@@ -13,7 +13,7 @@ import random
 
 from . import common, gen, valgen, valcheck
 
-C07_FILES = ["Properties/C07.v", "Proofs/ValidateProofs.v", "Proofs/ValidateRules.v", "Proofs/ValidateValues.v", "Proofs/ValidateSites.v", "Proofs/ValidateWalk.v", "Proofs/ValidateTree.v", "Proofs/SingleRoot.v", "Proofs/SingleRootSpreads.v", "Proofs/ValidateSpreads.v", "Proofs/ValidateScopes.v", "Proofs/ValidatePure.v", "Proofs/ValidateVars.v", "Proofs/Wiring.v"]
+C07_FILES = ["Properties/C07.v", "Proofs/ValidateProofs.v", "Proofs/ValidateRules.v", "Proofs/ValidateValues.v", "Proofs/ValidateSites.v", "Proofs/ValidateWalk.v", "Proofs/ValidateTree.v", "Proofs/SingleRoot.v", "Proofs/SingleRootSpreads.v", "Proofs/ValidateSpreads.v", "Proofs/ValidateScopes.v", "Proofs/ValidatePure.v", "Proofs/ValidateVars.v", "Proofs/FieldLookup.v", "Proofs/Wiring.v"]
 
 # recorded findings: a failing document is attributed to a finding only when the specification model
 # says it breaks exactly that rule AND the finding's region predicate (evaluated in Coq) holds
